@@ -180,3 +180,40 @@ def replay(spec):
         return False, f"raised {type(e).__name__}: {e}", spec_runtime(n, boxes, ids)
     exp = spec_runtime(n, boxes, ids)
     return (list(obs[0]), obs[1], obs[2]) == (exp[0], exp[1], exp[2]), obs, exp
+
+
+def run_unbounded(rep, tier):
+    """E1a: VCs from the real AST of find_top_boxed_args with the loop invariant of contracts/inv_ftba.py - FT1-FT3 for EVERY arity."""
+    import z3
+
+    import autograd.tracer as T
+    from vlib import pyvc
+    from vlib.smt import check_sat
+
+    from . import inv_ftba as SP
+    name = FN + "[any arity]"
+    rep.assume("E1a encoding for find_top_boxed_args: args as a sequence (array, N); isbox / ._trace / type(._node) as uninterpreted functions of the element; the list of (argnum, arg) pairs "
+               "represented by its argnums (each extension statement is checked to append the current (index, element) pair)")
+    try:
+        gen = pyvc.VCGen(T.find_top_boxed_args, SP)
+        obl = gen.run()
+        if gen.loop_n != SP.EXPECT["loops"]:
+            raise pyvc.ExtractError(f"{gen.loop_n} loops")
+    except (pyvc.ExtractError, KeyError, AttributeError, TypeError, z3.Z3Exception) as e:
+        rep.obligation(f"{name}:extract", False, "-", 0, "E1a")
+        rep.note(f"{name}: not extractable ({e}); the E1b contract (arity <= {4 if tier == 'quick' else 5}) decides the function on this tree")
+        return
+    failed = []
+    for oname, hyps, goal in obl:
+        st, m, backend, secs = check_sat(hyps + [z3.Not(goal)], 15000, want_model=False, both=(tier == "thorough"))
+        ok = st == "unsat"
+        rep.obligation(f"{name}:{oname}", ok, backend, secs, "E1a", trivial=z3.is_true(z3.simplify(goal)), sample=(f"{oname}" if len(rep.samples) < 2 else None))
+        if not ok:
+            failed.append(oname)
+    if failed:
+        # witness search = the E1b contract on the same tree (exhaustive structure up to the arity bound, symbolic ids)
+        before = len(rep.violations)
+        run(rep, tier, clauses=("FT1", "FT2", "FT3"))
+        if len(rep.violations) == before:
+            rep.violation(f"{name}:{failed[0].split(':')[0]}", failed[0], f"obligation {failed[0]} no longer discharges and the arity-bounded contract found no failing input", witness=False,
+                          solver_output=str(failed[:4]))
